@@ -30,6 +30,7 @@ use tokio_util::codec::{Decoder, Encoder};
 use uuid::Uuid;
 
 use super::model::{ProgAgent, ProgLifecycle, SharedTrace, Tr};
+use super::prog::{is_map, ITEM_NAMES};
 use super::scenario::*;
 use crate::core::exec::{now_step, Exec, NodeFut, NodePanic, Policy, Scheduler};
 use crate::core::log::EventLog;
@@ -177,6 +178,14 @@ async fn peer_writer(
                 (
                     Some(RequestMessage::command(id, RelativeAddress::new(NODE_URI, "run"), body_text.as_bytes())),
                     format!("send prog {pid}"),
+                )
+            }
+            POp::Direct { item, key, value } => {
+                let lane = ITEM_NAMES[*item as usize];
+                body_text = if is_map(*item) { format!("@update(key:{key}) {value}") } else { format!("{value}") };
+                (
+                    Some(RequestMessage::command(id, RelativeAddress::new(NODE_URI, lane), body_text.as_bytes())),
+                    format!("direct {lane} {body_text}"),
                 )
             }
             POp::Pause { polls } => {
